@@ -46,6 +46,7 @@ func ruleImportSet(c *core.Ctx) {
 			return &outT{n}
 		})
 		key := "AddImport twice: " + cs.name
+		noteRuns(c, runs)
 		if !complete {
 			c.Undecided("A-IMPORTSET", "(*pkg/codegen.Package).AddImport", key, "", "fork budget")
 			continue
